@@ -259,13 +259,13 @@ func c06Pairing(c *Ctx) {
 	rule := "C06.pairing"
 	c.Rule(rule, "A3 pairing: every reader obtained from db.NewReader / (*FBDNSDB).AcquireReader in a library package is Close()d exactly once on every path on which the acquisition succeeded (deferred, or an explicit call dominating every later return), never twice; returning the reader transfers the obligation to the caller")
 	newReader := c.TypesFunc("db", "NewReader")
-	acq := c.TypesFunc("dnsserver", "(*FBDNSDB).AcquireReader")
+	acquirers := readerAcquirers(c)
 	n := 0
 	for _, fn := range c.OurFuncs() {
 		if fn.Pkg.Pkg.Name() == "main" {
 			continue
 		}
-		for _, ci := range callsTo(fn, func(f *types.Func) bool { return f == newReader || f == acq }) {
+		for _, ci := range callsTo(fn, func(f *types.Func) bool { return f == newReader || acquirers[f] }) {
 			call, ok := ci.(*ssa.Call)
 			if !ok {
 				continue
@@ -321,9 +321,17 @@ func c06Pairing(c *Ctx) {
 				}
 			}
 			// closures closing the reader (defer func(){ reader.Close() }()) are not recognised: report as undecided
+			errIdx := -1
+			if res := calleeOf(call.Common()).Type().(*types.Signature).Results(); res != nil {
+				for k := 0; k < res.Len(); k++ {
+					if res.At(k).Type().String() == "error" {
+						errIdx = k
+					}
+				}
+			}
 			isAcqErr := func(v ssa.Value) bool {
 				cl, idx := callOfValue(v)
-				return cl == call && idx == 1
+				return cl == call && idx == errIdx
 			}
 			ok = true
 			var why []string
